@@ -15,10 +15,12 @@ PDF == {"d", "d/b"}
 UDF == {<<"d", "d/b">>}
 \* universe 2: two independent paths
 P2 == {"a", "b"}
-\* universe S (C32): names that share string prefixes but not components
-PS == {"a/x", "ab/y", "a/b/z", "f"}
-SS == {"a", "ab", "a/b", "a+ab"}
-ConeS == [s \in SS |-> CASE s = "a" -> {"a/x", "a/b/z"} [] s = "ab" -> {"ab/y"} [] s = "a/b" -> {"a/b/z"} [] s = "a+ab" -> {"a/x", "a/b/z", "ab/y"}]
+\* universe S (C32): names that share string prefixes but not components, and a selection three
+\* components deep next to an excluded sibling that sorts before it (a/b/0 vs a/b/c/w)
+PS == {"a/x", "ab/y", "a/b/0", "a/b/c/w", "f"}
+SS == {"a", "ab", "a/b", "a/b/c", "a+ab"}
+ConeS == [s \in SS |-> CASE s = "a" -> {"a/x", "a/b/0", "a/b/c/w"} [] s = "ab" -> {"ab/y"} [] s = "a/b" -> {"a/b/0", "a/b/c/w"}
+                          [] s = "a/b/c" -> {"a/b/c/w"} [] s = "a+ab" -> {"a/x", "a/b/0", "a/b/c/w", "ab/y"}]
 NoCone == [s \in {} |-> {}]
 OpsMain == {"reset-hard", "checkout-force", "checkout-force-create", "checkout", "checkout-twin", "checkout-create", "reset-merge", "reset-keep", "add", "add-all", "remove", "move", "clean", "commit", "status"}
 OpsNoMove == OpsMain \ {"move"}
